@@ -13,6 +13,12 @@ STAGES = {
     "eac": lambda k: ("eval-and-compile", ("CT", k), 7),
     "eac-setv": lambda k: ("eval-and-compile", ("setv", "ctvar%d" % k, ("CT", k)), "ctvar%d" % k),
     "domac": lambda k: ("do-mac", ("CT", k), ("quote", ("E", 60 + k, "v9"))),
+    # do-mac values that are falsy but not None are still code
+    "domac-0": lambda k: ("do-mac", ("CT", k), 0),
+    "domac-str": lambda k: ("do-mac", ("CT", k), ("str", "")),
+    "domac-false": lambda k: ("do-mac", ("CT", k), False),
+    "domac-list": lambda k: ("do-mac", ("CT", k), ("[",)),
+    "domac-arith": lambda k: ("do-mac", ("CT", k), ("-", 3, 3)),
     "domac-do": lambda k: ("do-mac", ("CT", k), ("quote", ("do", ("setv", "dm%d" % k, ("E", 60 + k, "v9")), "dm%d" % k))),
 }
 
@@ -23,6 +29,12 @@ def placements(stage_a, stage_b):
         ("top-value", ("#(", stage_a, ("E", 0, "v0"))),
         ("if", ("if", ("E", 0, "v0"), stage_a, stage_b)),
         ("when", ("when", ("E", 0, "v0"), stage_a, ("E", 1, "v1"))),
+        # branches that can never run are still compiled, so their staging forms still run at compile time
+        ("if-true", ("if", True, stage_a, stage_b)),
+        ("if-false", ("if", False, stage_a, stage_b)),
+        ("if-none", ("if", None, ("do", stage_a, ("E", 1, "v1")), stage_b)),
+        ("when-false", ("do", ("when", False, stage_a), ("E", 0, "v0"))),
+        ("cond-true", ("cond", True, stage_a, ("E", 0, "v0"), stage_b)),
         ("fn-twice", ("do", ("defn", "g", ("[",), stage_a), ("#(", ("g",), ("E", 0, "v0"), ("g",)))),
         ("fn-never", ("do", ("defn", "g", ("[",), stage_a), ("E", 0, "v0"))),
         ("loop", ("for", ("[", "i", "xs0"), stage_a, ("E", 0, "i"))),
@@ -144,9 +156,11 @@ def skeletons(tier):
             sa = STAGES[a](1)
             sb = STAGES[b](3)
             for pname, sk in placements(sa, sb):
-                uses_b = pname in ("if", "let")
+                uses_b = pname in ("if", "let", "if-true", "if-false", "if-none", "cond-true")
                 if not uses_b and b != "ewc":
                     continue
+                if pname == "top" and a == "domac-str":
+                    continue  # a string as the first statement of a module is its docstring (Python's rule), which binds __doc__
                 n += 1
                 out.append(("%s/%s%s" % (pname, a, ("+" + b) if uses_b else ""), sk))
     return out
@@ -187,8 +201,8 @@ def spec(tier, seed):
             "hy.core.result_macros.compile_eval_and_compile / eval-when-compile / do-mac",
             "hy.compiler.hy_eval (compile-time evaluation), HyASTCompiler (compiling the do-mac result)",
         ],
-        "bounds": "staging forms {eval-when-compile (1-2 body forms), eval-and-compile (constant result, setv+read), do-mac returning a quoted call / quoted do with setv} in 12 placements "
-                  "(top level, value position, both if branches, when, function called twice / never, for and lfor bodies, call argument, nested fn, try, let binding); run-time inputs "
+        "bounds": "staging forms {eval-when-compile (1-2 body forms), eval-and-compile (constant result, setv+read), do-mac returning a quoted call / quoted do with setv / a falsy constant (0, "", False, [], (- 3 3))} in 17 placements "
+                  "(top level, value position, both if branches, when, branches of if/when/cond with a literal True/False/None condition, function called twice / never, for and lfor bodies, call argument, nested fn, try, let binding); run-time inputs "
                   "(truthiness, list) symbolic; compile-time log compared with the expected once-per-form log; the same code objects re-checked after a marshal round trip",
         "outside": "staging forms nested inside staging forms; compile-time effects other than calls to the recorder; importlib's .pyc handling (see C15)",
         "stubs": ["crosshair.util.getsourcelines wrapper for .hy-defined callees"],
